@@ -171,6 +171,9 @@ def cases_for(tier, s):
     for cell in ("triangle", "tetrahedron", "quadrilateral") if tier == "quick" else CELLS:
         for wh in whiches:
             add("expr_suite", cell, cdeg=2 if cell in ("triangle", "quadrilateral") else 1, p={"which": wh})
+    for cell in ("tetrahedron", "hexahedron"):
+        for pk in ("diagonal", "axis", "one_point"):
+            add("expr_facet", cell, p={"which": ["x", "rank1_u", "flux"][("diagonal", "axis", "one_point").index(pk)], "pts_kind": pk})
     for wh in range(5):
         add("expr_dropped", ["triangle", "quadrilateral", "tetrahedron", "interval", "hexahedron"][wh], p={"which": wh})
     add("expr_suite", "triangle", p={"which": "rank1_vector", "pts": "vertices"})
